@@ -100,6 +100,15 @@ pub fn table() -> Vec<ConstCase> {
     t.push(i32c("lod2Bias", "name-style", "-3", -3));
     t.push(f32c("\u{394}t", "name-style", "0.5", 0.5));
     t.push(ConstCase { name: "useFog".into(), decl: "const useFog = false;".into(), expect: Some((vec!["bool"], Bits::Bool(false))), form: "name-style" });
+    // ---- names that extend (but are not) names the generator introduces itself
+    t.push(u32c("SOURCE_COUNT", "name-style", "3u", 3));
+    t.push(i32c("SOURCES", "name-style", "-2", -2));
+    t.push(f32c("ENTRY_MAIN_TAPS", "name-style", "9.0", 9.0));
+    t.push(u32c("ENTRY_VS_MAIN2", "name-style", "5u", 5));
+    t.push(u32c("MAIN_WORKGROUP_SIZE_X", "name-style", "8u", 8));
+    t.push(u32c("PUSH_CONSTANT_STAGES_USED", "name-style", "1u", 1));
+    t.push(i32c("LAYOUT_DESCRIPTOR0_SLOTS", "name-style", "4", 4));
+    t.push(f32c("BindGroup0Scale", "name-style", "0.25", 0.25));
     // ---- references
     t.push(i32c("REF_BASE", "literal", "-5", -5));
     t.push(ConstCase { name: "REF_COPY".into(), decl: "const REF_COPY = REF_BASE;".into(), expect: Some((vec!["i32"], Bits::Int(-5))), form: "reference" });
@@ -225,12 +234,29 @@ fn literal_suffix_ok(c: &omodel::ConstInfo) -> bool {
 }
 
 pub fn module_for(cases: &[&ConstCase]) -> String {
+    module_for_mix(cases, "C")
+}
+
+/// `mix`: which entry points follow the constants (C compute, V vertex, F fragment; empty = none at all;
+/// R = resources, a struct and an override declared between the constants as well)
+pub fn module_for_mix(cases: &[&ConstCase], mix: &str) -> String {
     let mut s = String::new();
-    for c in cases {
+    for (i, c) in cases.iter().enumerate() {
+        if mix.contains('R') && i == cases.len() / 2 {
+            s.push_str("struct MidS { a: vec4<f32>, b: f32 };\n@group(0) @binding(0) var<uniform> mid_u: MidS;\noverride mid_ov: f32 = 1.0;\nvar<private> mid_p: i32;\nvar<push_constant> mid_pc: vec4<f32>;\n");
+        }
         s.push_str(&c.decl);
         s.push('\n');
     }
-    s.push_str("@compute @workgroup_size(1) fn main() {\n}\n");
+    if mix.contains('V') {
+        s.push_str("@vertex fn vs_main() -> @builtin(position) vec4<f32> {\n    return vec4<f32>(0.0);\n}\n");
+    }
+    if mix.contains('F') {
+        s.push_str("@fragment fn fs_main() -> @location(0) vec4<f32> {\n    return vec4<f32>(0.0);\n}\n");
+    }
+    if mix.contains('C') {
+        s.push_str("@compute @workgroup_size(1) fn main() {\n}\n");
+    }
     s
 }
 
@@ -290,11 +316,28 @@ pub fn run(tier: &str) -> i32 {
             modules.push((format!("perm={perm:?}"), v));
         }
     }
-    let cfg = Config::default();
+    // the constants must not depend on what else the module declares or on the write options: the whole-table modules
+    // are repeated with other entry-point mixes / surrounding declarations and under other option sets
+    let full = Config { bytemuck_vertex: true, bytemuck_host: true, encase: true, serde: true, repr: Repr::Glam, ..Config::default() };
+    let variants: Vec<(&str, Config)> = vec![
+        ("", Config::default()),
+        ("VF", Config::default()),
+        ("RVFC", Config { encase: true, ..Config::default() }),
+        ("C", full),
+        ("RC", Config { encase: true, serde: true, repr: Repr::Nalgebra, ..Config::default() }),
+        ("VFC", Config { validate: Validate::All, ..Config::default() }),
+    ];
+    let mut modules: Vec<(String, Vec<&ConstCase>, &str, Config)> = modules.into_iter().map(|(k, v)| (k, v, "C", Config::default())).collect();
+    for base in ["all", "all-reversed", "all-interleaved"] {
+        let cases = modules.iter().find(|m| m.0 == base).map(|m| m.1.clone()).unwrap();
+        for (mix, c) in &variants {
+            modules.push((format!("{base}|mix={mix}|{}", c.key()), cases.clone(), mix, *c));
+        }
+    }
     let mut probe_cases = vec![];
     let mut probe_index: BTreeMap<String, usize> = BTreeMap::new();
-    for (mi, (mkey, cases)) in modules.iter().enumerate() {
-        let src = module_for(cases);
+    for (mi, (mkey, cases, mix, cfg)) in modules.iter().enumerate() {
+        let src = module_for_mix(cases, mix);
         rep.states += 1;
         rep.transitions += cases.len() as u64;
         rep.evaluations += 1;
@@ -375,7 +418,7 @@ pub fn run(tier: &str) -> i32 {
                 }
             }
         }
-        if mi == 0 || !rep.thorough() && mkey.starts_with("form=") || rep.thorough() {
+        if *cfg == Config::default() && (mi == 0 || !rep.thorough() && mkey.starts_with("form=") || rep.thorough()) {
             let name = format!("c_{mi:04}");
             probe_index.insert(name.clone(), mi);
             probe_cases.push(ProbeCase { name, generated: text.clone(), probe_body, probe_items: String::new(), files: vec![] });
@@ -387,8 +430,8 @@ pub fn run(tier: &str) -> i32 {
     let results = probe::run_batch("C15", &probe_cases, true);
     for cr in &results {
         let mi = probe_index[&cr.name];
-        let (mkey, cases) = &modules[mi];
-        let src = module_for(cases);
+        let (mkey, cases, mix, cfg) = &modules[mi];
+        let src = module_for_mix(cases, mix);
         match &cr.check {
             Verdict::Accepted => {}
             Verdict::Rejected(e) => {
